@@ -216,6 +216,12 @@ impl<'s, M: Matcher, S: Sink> MultiLine<'s, M, S> {
 
         let line =
             lines::locate(self.slice, self.config.line_term.as_byte(), mat);
+        if line.is_empty() {
+            // An empty match at the position immediately following the last
+            // line terminator isn't on any line, so there is nothing to
+            // report for it (including its context).
+            return Ok(true);
+        }
         // We delay sinking the match to make sure we group adjacent matches
         // together in a single sink. Adjacent matches are distinct matches
         // that start and end on the same line, respectively. This guarantees
